@@ -71,3 +71,19 @@ Lemma restore_safe_b_ok : forall l h id, restore_safe_b l h id = true <-> Restor
 Proof.
   intros l h id. unfold restore_safe_b, RestoreSafe. rewrite orb_true_iff, opt_eqb_eq, is_some_present. tauto.
 Qed.
+
+Theorem consistent2_b_sound : forall hbl l, consistent2_b hbl l = true -> Consistent2 (has_body_in hbl) (lget l).
+Proof.
+  intros hbl l H. unfold consistent2_b in H. apply andb_true_iff in H. destruct H as [H Hbody].
+  apply andb_true_iff in H. destruct H as [Hbase Hfin].
+  destruct (lget l KFin) as [f|] eqn:Ef; [|discriminate]. destruct (lget l KTipMark) as [t|] eqn:Et; [|discriminate].
+  apply andb_true_iff in Hfin. destruct Hfin as [Hle Hd]. apply N.leb_le in Hle. rewrite forallb_forall in Hd, Hbody.
+  constructor.
+  - now apply consistent_b_sound.
+  - exists f, t. auto.
+  - intros f' t' h Hf' Ht' Hlt Hhle. assert (f' = f) by congruence. assert (t' = t) by congruence. subst.
+    apply is_some_present. specialize (Hd (N.to_nat (h - f - 1))).
+    replace (f + 1 + N.of_nat (N.to_nat (h - f - 1))) with h in Hd by lia.
+    apply Hd. apply in_seq. lia.
+  - intros h id Hi Hb. specialize (Hbody _ (lget_in _ _ _ Hi)). cbn in Hbody. rewrite Hb in Hbody. now apply is_some_present.
+Qed.
